@@ -45,15 +45,17 @@ pub fn run_prop(ctx: &Ctx, sink: &mut Sink) {
                 if flag != "P" { args.push(format!("-{flag}")); }
                 for (sp, _) in &roots { args.push(String::from_utf8(sp.clone()).unwrap()); }
                 args.extend(argv_of(&toks, &mut rng));
-                let (fst, xst, inv) = run_pipe0(ctx, &args, &sc.dir);
+                let replace = rng.chance(1, 3);
+                let (fst, xst, inv) = run_pipe0(ctx, &args, &sc.dir, replace);
                 let mut delivered: Vec<Vec<u8>> = vec![];
                 for i in &inv {
                     delivered.extend(i.argv.iter().skip(1).cloned());
                 }
                 let worlds: Vec<String> = roots.iter().map(|(_, w)| w.clone()).collect();
-                let req = format!("pipe0 {flag} {} {}", worlds.join(";"), toks.join(","));
+                let req = format!("{} {flag} {} {}", if replace { "pipe0i" } else { "pipe0" }, worlds.join(";"), toks.join(","));
                 let imp = format!("fst={fst} xst={xst} args={}", hex_list(&delivered));
                 let mut tags = vec!["pipe", "nt"];
+                if replace { tags.push("xargs-I"); }
                 if inv.len() > 1 { tags.push("several-commands"); }
                 sink.push(Case { req, imp, tags });
             } else {
@@ -96,11 +98,13 @@ pub fn run_prop(ctx: &Ctx, sink: &mut Sink) {
         let mut args: Vec<String> = vec![];
         for (sp, _) in &roots { args.push(String::from_utf8(sp.clone()).unwrap()); }
         args.extend(argv_of(&toks, &mut rng));
-        let (fst, xst, inv) = run_pipe0(ctx, &args, &dir);
-        let mut delivered: Vec<Vec<u8>> = vec![];
-        for i in &inv { delivered.extend(i.argv.iter().skip(1).cloned()); }
         let worlds: Vec<String> = roots.iter().map(|(_, w)| w.clone()).collect();
-        sink.push(Case { req: format!("pipe0 P {} {}", worlds.join(";"), toks.join(",")), imp: format!("fst={fst} xst={xst} args={}", hex_list(&delivered)), tags: vec!["pipe", "blank-start", "nt"] });
+        for replace in [false, true] {
+            let (fst, xst, inv) = run_pipe0(ctx, &args, &dir, replace);
+            let mut delivered: Vec<Vec<u8>> = vec![];
+            for i in &inv { delivered.extend(i.argv.iter().skip(1).cloned()); }
+            sink.push(Case { req: format!("{} P {} {}", if replace { "pipe0i" } else { "pipe0" }, worlds.join(";"), toks.join(",")), imp: format!("fst={fst} xst={xst} args={}", hex_list(&delivered)), tags: vec!["pipe", "blank-start", "nt"] });
+        }
         let (req, imp) = run_case(ctx, &dir, "P", &roots, &toks, &mut rng, true);
         sink.push(Case { req, imp, tags: vec!["print", "blank-start", "nt"] });
         let _ = std::fs::remove_dir_all(&dir);
